@@ -9,6 +9,8 @@ import (
 	"crypto/x509"
 	"sort"
 	"strconv"
+	"strings"
+	"time"
 
 	"github.com/smallstep/certificates/db"
 )
@@ -163,8 +165,8 @@ func (d *DB) GetCRL() (*db.CertificateRevocationListInfo, error) {
 }
 
 func (d *DB) StoreCRL(info *db.CertificateRevocationListInfo) error {
-	// key = the number of the list being stored
-	num := strconv.FormatInt(info.Number, 10)
+	// key = "<number of the list being stored>/<its duration in seconds>" (see CRLKey)
+	num := strconv.FormatInt(info.Number, 10) + "/" + strconv.FormatInt(int64(info.Duration/time.Second), 10)
 	if err := d.H.before("storecrl", num); err != nil {
 		return err
 	}
@@ -173,6 +175,14 @@ func (d *DB) StoreCRL(info *db.CertificateRevocationListInfo) error {
 		return e
 	}
 	return err
+}
+
+// CRLKey splits the key the storecrl hooks receive into the list's number and duration (seconds).
+func CRLKey(key string) (number, seconds int64) {
+	a, b, _ := strings.Cut(key, "/")
+	number, _ = strconv.ParseInt(a, 10, 64)
+	seconds, _ = strconv.ParseInt(b, 10, 64)
+	return
 }
 
 // Entry is one raw record of a table.
